@@ -143,3 +143,15 @@ CLAIMS["C07"] = {
             "baseline after close. 17/18 probe mutants detected (1 equivalent). Exploration.",
     "note": "go-multistream is trusted; handler changes occur between batches at quiescence; infinite resource limits; no QUIC substrate; interleavings inside one virtual instant are picked by the scheduler.",
 }
+
+CLAIMS["C01"] = {
+    "technique": "bounded-exhaustive enumeration plus rapid sampling of handshake configurations, man-in-the-middle wire edits, active-attacker payload and certificate forgeries and dial scripts inside synctest bubbles over in-memory connections; native fuzz target on the Noise peer stream (thorough)",
+    "design_ref": "DESIGN.md section 3, C01",
+    "text": "For every identity key type on either side, both roles, every expected-peer setting and prologue pairing (3024 cases, exhaustive) a completed Noise/TLS handshake must report exactly the identity whose private key the "
+            "remote used and respect the local expectation. A frame-aware man in the middle flips every byte position of every handshake frame (quick: 3 Noise / 1 TLS key-type pairs; thorough: all 16 / 4) and truncates, extends, "
+            "drops, duplicates, swaps with a concurrent session and replays frames: the receiver of edited handshake data never completes. An active attacker speaking Noise XX presents 27 forged payload variants, plain crypto/tls "
+            "presents 30 forged certificate variants (incl. every cut point and byte flip of the libp2p extension): never accepted as anyone but the key holder. Dials for P through a real swarm (scripted transports, real upgrader, "
+            "QUIC over simnet) never yield a connection, notification or swarm entry for another peer and the foreign connection is closed. 16/16 probe mutants detected in the quick tier. Exploration.",
+    "note": "Trusted: the cryptographic primitives, flynn/noise, crypto/tls, crypto/x509. TLS plaintext record headers and the ChangeCipherSpec record are judged by the identity oracle only (unauthenticated by TLS 1.3); bytes after a "
+            "side's last handshake frame are post-handshake data; a stalled handshake (virtual 10 s) counts as a rejection; QUIC only for expected-peer mismatch; WebTransport/WebRTC not exercised.",
+}
